@@ -124,7 +124,7 @@ def run_case(ctx, rng, pandas, s, S, det, tensors, nonvan, e, relrows, outcome, 
     ign_rank, ign_res = bool(rng.random() < 0.35), bool(rng.random() < 0.35)
     if not det and gross:
         return
-    env = str(rng.choice(["plain", "upper", "ints", "extras", "cwd_dir", "relfile"]))
+    env = str(rng.choice(["plain", "upper", "ints", "extras", "cwd_dir", "relfile", "relfile_dot"]))
     # (a FILE named like the system in the working directory is not generated: the statement makes a path to a relations
     #  file take precedence, so such a file would legitimately be read as the relations)
     df = build_table(pandas, rng, S, rows, extra_bad, upper=(env == "upper"), ints=(env == "ints"), extras=(env == "extras"))
@@ -142,8 +142,24 @@ def run_case(ctx, rng, pandas, s, S, det, tensors, nonvan, e, relrows, outcome, 
         rel = work / "my_relations.txt"
         shutil.copy(fillspec.CONSTRAINTS / s, rel)
         system_arg = str(rel)
+    elif env == "relfile_dot":
+        # a relations file in the working directory that happens to be NAMED like another packaged system, given as a relative
+        # path: it is a path, so its content (this system's relations) is what must be used
+        other = str(rng.choice([x for x in fillspec.SYSTEMS if x != s]))
+        shutil.copy(fillspec.CONSTRAINTS / s, work / other)
+        system_arg = "./" + other
+        case["named_like"] = other
+    arg = df.copy()
     with cwd(work):
-        got, out = call_fill(df.copy(), system_arg, ignore_rank=ign_rank, ignore_residuals=ign_res)
+        got, out = call_fill(arg, system_arg, ignore_rank=ign_rank, ignore_residuals=ign_res)
+    if got == "raise" and want == "raise":
+        # a refusal must leave the caller's table as it was ("never distorts data")
+        same = list(arg.columns) == list(df.columns) and arg.shape == df.shape and \
+            all(numpy.array_equal(arg[c].to_numpy(), df[c].to_numpy()) and arg[c].dtype == df[c].dtype for c in df.columns)
+        if not same:
+            ctx.violation(f"{s} [{env}]: the refused fill changed the caller's table (columns {list(df.columns)} -> {list(arg.columns)})",
+                          {**case, "table": df.to_dict("list")}, {**sig, "clause": "refusal_mutates"})
+            return
     if got != want:
         detail = repr(out) if got == "raise" else "accepted"
         ctx.violation(f"{s} [{env}] supplied={case['supplied']} det={det} gross={gross} flags(rank={ign_rank},res={ign_res}): "
